@@ -10,7 +10,7 @@ LEAN_MODULES = ['MV.Props.C17']
 LEAN_HELPERS = ['MV.Lemmas.Metric', 'MV.Lemmas.Bjorklund', 'MV.Model.Metric', 'MV.Model.Basic', 'MV.Model.Types']
 DRIVERS = ['C17']
 GEN = ['Tables', 'MetricTables']
-SRC_TIE = ['SrcMetric']   # py2lean source images of get_beat_durations / complementary / circular_shift proved equal to the model
+SRC_TIE = ['SrcMetric', 'SrcEuclid']   # py2lean source images proved equal to the model: get_beat_durations / complementary / circular_shift (MV/Props/TieMetric.lean); bjorklund_algorithm, Metric.duration / _nb_steps / Euclidian / euclidian / reversed / get_array_between / _apply_durations_to_melody / apply_to_melody / FromMelody / from_melody (MV/Props/TieSrcEuclid.lean)
 RULE = ('metric: grids over the 9 signatures x 14 tatums x 1..3 bars (steps integral, <= 96) with random binary arrays '
         '(all-0, all-1, leading-rest and single-pulse grids forced) x random melodies (pitched, relative, drum/pattern '
         'notes, rests, continuations), three observations per case (produced melody, get_note_times, FromMelody of the '
@@ -658,7 +658,8 @@ def correspondence(ctx):
     ctx.compare('euclid', 'C17', euclid_cases(ctx, ctx.n(96, 400) if not ctx.search else 96, ctx.n(40, 400)))
     # kernel-level streams of the source tie (DESIGN §9.6)
     import srctie
-    srctie.run(ctx, SRC_TIE)
+    srctie.run(ctx, [g for g in SRC_TIE if g != 'SrcEuclid'])
+    srctie.run(ctx, ['SrcEuclid'], quick=450, thorough=8000)      # four families of operations, see srcgroups/SrcEuclid.py
 
 
 # ----------------------------------------------------------------------------- oracle driver
